@@ -461,3 +461,26 @@ MANIFEST_TEXT["C17"] = {
              "with the exact union-of-polyhedra semantics decided by z3."),
     "note": "Trusted: CPython, z3, pvm/exact.py.",
 }
+
+META["C18"] = {
+    "level": "exploration",
+    "rule": ("cases = constraint lists over 2-4 variables with small-integer coefficients, integer values for the "
+             "non-plotted variables and integer axis limits in [-5,5], x/y roles swapped at random; families: random, "
+             "many-sided (4-8 oblique cuts), degenerate (equality pairs: segments and points), empty, missing value. "
+             "Oracle: exact rational vertex enumeration of the slice (pairwise line intersections filtered by all "
+             "rows): returned point set == corner set within 1e-6 (duplicates tolerated), every point satisfies all "
+             "rows, for >=3 corners the sequence is a rotation of the angular order, ValueError <=> empty slice or "
+             "missing value. Non-trivial = all executed cases; distinct = case digests."),
+    "required": ["slice:polygon3:returned", "slice:polygon4:returned", "slice:polygon5:returned",
+                 "slice:polygon6:returned", "slice:polygon8:returned", "slice:segment:returned", "slice:point:returned",
+                 "slice:empty:ValueError", "refuse:missing-value:ValueError"],
+    "assumptions": [TB, "matplotlib on the Agg backend; Qhull and HiGHS are observed only through the routine's return"],
+    "soft_s": {"quick": 200, "thorough": 2500},
+}
+MANIFEST_TEXT["C18"] = {
+    "technique": RM + "constraints_to_vertices executed on generated slices; exact rational vertex enumeration as the oracle (set equality, constraint satisfaction, angular order, emptiness)",
+    "text": ("Exploration: every returned vertex list is compared with the exactly enumerated corner set of the slice, "
+             "each point re-checked against all constraints, the order against the angular order, and ValueError "
+             "against exact emptiness."),
+    "note": "Trusted: CPython fractions and the 25-line exact vertex enumeration in pvm/checks/c18.py.",
+}
